@@ -45,11 +45,9 @@ func main() {
 		}
 		fmt.Println("corpus written to", dir)
 	case "c16digest":
-		var seed, from, to int64
+		var seed int64
 		fmt.Sscan(os.Args[2], &seed)
-		fmt.Sscan(os.Args[3], &from)
-		fmt.Sscan(os.Args[4], &to)
-		checks.C16Digests(seed, from, to)
+		checks.C16Digests(seed, os.Args[3])
 	case "list":
 		for _, id := range core.IDs() {
 			fmt.Println(id)
